@@ -5,7 +5,8 @@
 EXTENDS JetProg
 CONSTANTS Depth
 
-Sites   == {"include", "includectx", "exec", "execctx", "incif", "incifctx", "incifmissing", "includemissing", "execmissing"}
+Sites   == {"include", "includectx", "exec", "execctx", "incif", "incifctx", "incifmissing", "includemissing", "execmissing",
+            "incifbroken", "includebroken", "execbroken", "includecomputed"}
 Shapes  == {"plain", "ext1", "ext2"}
 Returns == {"none", "top", "two", "inif", "inelse", "inrange", "intry", "nested", "thenif", "thentry", "theninclude", "nilret", "incatch", "incatchvar", "afterfailedtry"}
 SiteKinds == {"range", "ycont", "tryin", "include", "iflet"}
@@ -46,6 +47,11 @@ MkC(par) ==
                 [] site = "incifmissing"   -> <<IncIf("call", "nosuch")>>
                 [] site = "includemissing" -> <<Incl("call", "nosuch")>>
                 [] site = "execmissing"    -> <<ExecLet("call", "r", "nosuch")>>
+                [] site = "incifbroken"    -> <<IncIf("call", BrokenName)>>
+                [] site = "includebroken"  -> <<Incl("call", BrokenName)>>
+                [] site = "execbroken"     -> <<ExecLet("call", "r", BrokenName)>>
+                \* one call site, a different template each time round
+                [] site = "includecomputed" -> <<RangeS("ccr", "none", "", "", "", ListE("slice", <<"cal2", "cal3", "cal", "cal2">>), <<Incl("call", "@ctx")>>)>>
       focal == <<T("f0")>> \o call \o <<P("fs", Var("s")), P("fctx", Ctx), P("fi2", IsSetE("x2")), T("f1")>>
       r    == Build(path, 1, focal)
       main == <<BlockS("ibd", "ib", <<>>, NoE, <<T("IB")>>), T("pre"), LetS("ls", "s", Lit("s0"))>> \o r.main \o
@@ -56,7 +62,8 @@ MkC(par) ==
       tag |-> PathTag(path) \o "|" \o site \o "|" \o shape \o "|" \o rk]
 
 cParams == {p \in PathsUpTo(SiteKinds, Depth) \X Sites \X Shapes \X Returns :
-              /\ (p[2] \in {"incifmissing", "includemissing", "execmissing"} => p[3] = "plain" /\ p[4] = "none")
+              /\ (p[2] \in {"incifmissing", "includemissing", "execmissing", "incifbroken", "includebroken", "execbroken"} => p[3] = "plain" /\ p[4] = "none")
+              /\ (p[2] = "includecomputed" => p[4] = "none")
               /\ (p[4] # "none" => p[2] \in {"exec", "execctx", "include"})
               /\ (p[3] # "plain" => p[4] \in {"none", "top"})}
 =============================================================================
